@@ -93,7 +93,7 @@ def fbits(r):
     e = r.randint(0, 255); s = r.randint(0, 1); m = r.choice([0, 1, 0x400000, 0x7fffff, r.randint(0, 0x7fffff)])
     return (s << 31) | (e << 23) | m
 
-def gen_content(r, layout, big=False):
+def gen_content(r, layout, big=False, frac=False):
     """a well-formed content: POINT/ANALOG groups with consistent counts, extra groups/params of every type and shape"""
     np_ = r.choice([0, 1, 2, 3, 5] if not big else [54, 255])
     nch = r.choice([0, 0, 1, 2, 4] if not big else [16, 104, 64, 104])     # 104: unlabeled channels with three-digit indices
@@ -102,6 +102,14 @@ def gen_content(r, layout, big=False):
     if np_ == 0 and nch == 0: nfr = 0
     first = r.choice([1, 1, 2, 10, 705])
     prate = r.choice([50.0, 100.0, 120.0, 200.0])
+    if frac:
+        # broadcast-style rates: the 32-bit ANALOG:RATE is POINT:RATE x sub-frames ROUNDED, so the quotient taken in double is
+        # just below the whole number for some pairs (29.97 x 7, 59.94 x 13, 119.88 x 15); own stream, the main one is untouched
+        r2 = random.Random(r.random())
+        prate = r2.choice([29.97, 59.94, 119.88, 23.976])
+        if nch: nsub = r2.choice([4, 7, 13, 15])
+        if nfr and r2.random() < 0.5: first = 65536 - nfr          # the last frame number is the largest the header word holds
+    prate = struct.unpack("<f", struct.pack("<f", prate))[0]
     arate = prate * (nsub if nch else 1)
     used_ids = [1, 2]
     if layout.sparse_ids:
@@ -171,10 +179,10 @@ def gen_content(r, layout, big=False):
     frames = [([[fbits(r) for _ in range(4)] for _ in range(np_)], [[fbits(r) for _ in range(nch)] for _ in range(nsub)]) for _ in range(nfr)]
     return dict(groups=groups, params=params, header=header, frames=frames)
 
-def make_file(seed, path, big=False):
+def make_file(seed, path, big=False, frac=False):
     r = random.Random(seed)
     layout = Layout(r)
-    content = gen_content(r, layout, big)
+    content = gen_content(r, layout, big, frac)
     b, ds = encode(content, layout, r)
     # write DATA_START value if present: find the record and patch
     bb = bytearray(b)
